@@ -61,7 +61,7 @@ def build_cases(tier):
     for c in F.lists(tier, lens=range(6, 10)):
         c["family"] = "W-LIST6+"
         cases.append(c)
-    cases += F.w_alias() + F.w_forctl() + F.w_loopvar() + F.w_stack0() + F.w_forlist_nested() + F.w_alias_lifetime() + F.w_list1() + F.w_namedslotwrite()
+    cases += F.w_alias() + F.w_forctl() + F.w_loopvar() + F.w_stack0() + F.w_forlist_nested() + F.w_alias_lifetime() + F.w_list1() + F.w_namedslotwrite() + F.w_forstate()
     for c in cases:
         c.setdefault("monitors", [])  # C01 judges traces only; monitors belong to C04/C06/C07
     return common.prepare(cases, default_variants=[{}, {"inline_functions": False}])
